@@ -29,6 +29,20 @@ def run(ctx):
     if scopes.table(ctx, fb, "C03-set-in-place", "set") < 8:
         ctx.report("C03-set-in-place", "floor", "the scope-chain table of set was not evaluated")
 
+    # bindings can be mutated only through the scope primitives: the frame's table is private to the environment module
+    # and the only functions that take it mutably are define / set / get_mut
+    from . import privacy
+    privacy.require_restricted(ctx, "C03-set-in-place", fb, "environment::LexicalScope", ["definitions", "parent"],
+                               "a frame's binding table could be edited without going through define/set")
+    muts = sorted({g.name for g in fb.all("lib") for _, t in g.calls() if (callee(t) or "").endswith("RefCell::borrow_mut")
+                   and "HashMap<std::string::String" in " ".join(t.get("argtys", []))})
+    ctx.inst("C03-set-in-place", "binding-table-mutators", muts)
+    extra = [m for m in muts if m.split("::{closure")[0] not in ("environment::LexicalScope::define", "environment::LexicalScope::set",
+                                                                 "environment::LexicalScope::get_mut")]
+    if extra:
+        ctx.report("C03-set-in-place", "mutators", "the binding table is borrowed mutably by %s (only define, set and get_mut "
+                   "may)" % extra, None)
+
     # ------------------------------------------------------------------ C03-no-frame-copy
     ctx.rule("C03-no-frame-copy", "frames are never deep-copied")
     target = "<environment::LexicalScope as std::clone::Clone>::clone"
@@ -50,54 +64,57 @@ def run(ctx):
 
     # ------------------------------------------------------------------ C03-fresh-frame
     ctx.rule("C03-fresh-frame", "every application binds in a fresh frame that is not retained elsewhere")
-    asp = fb.find(INTERP + "apply_scheme_procedure")
-    pa = Prov(asp)
-    from . import frames
-    fr = frames.analyse(fb)
-    ctx.inst("C03-fresh-frame", "frame-provenance", {"case": fr.case, "created_in": sorted(fr.makers),
-                                                     "detail": [list(x) for x in fr.instances]})
-    ctx.oblige(not fr.problems)
-    for key, msg, where in fr.problems:
-        ctx.report("C03-fresh-frame", key, msg, where)
-    dom = asp.dominators()
-    if fr.case == "A" and len(fr.creation) == 1:
-        nb = fr.creation[0][1]
-        for b, t in asp.calls():
-            if callee_matches(t, "LexicalScope::define", "iter_to_last") and nb not in dom[b]:
-                ctx.report("C03-fresh-frame", "order", "a binding is made before the fresh frame exists", where_of(asp, t))
-    # the fresh frame is not retained anywhere else: in every function that holds it between creation and the body
-    for g, nb, nt in fr.creation:
-        pg = Prov(g)
-        child_locals = {l for l in range(len(g.locals)) if ("call", nb, callee(nt)) in pg.roots(l)}
-        sinks = set()
-        for b, t in g.calls():
-            for k, a in enumerate(t["args"]):
-                if mir.op_local(a) in child_locals:
-                    sinks.add(callee(t))
-        allowed = ("std::rc::Rc::new", "<std::rc::Rc as std::ops::Deref>::deref", "environment::LexicalScope::define",
-                   INTERP + "eval_expression", INTERP + "eval_tail_expression", "<std::rc::Rc as std::clone::Clone>::clone",
-                   INTERP + "apply_scheme_procedure", INTERP + "eval_procedure_call", "std::mem::drop",
-                   # the formals visitor (a closure capturing &frame; its body is checked by C01-scope-extend)
-                   "parser::parser::<impl error::Located<parser::parser::ParameterFormalsBody>>::iter_to_last")
-        extra = sorted(s for s in sinks if s not in allowed)
-        ctx.inst("C03-fresh-frame", "%s/child-frame-sinks" % g.name.rsplit("::", 1)[-1], sorted(s.rsplit("::", 1)[-1] for s in sinks if s))
-        if extra:
-            ctx.report("C03-fresh-frame", "escapes", "the fresh frame is handed to %s" % extra, where_of(g))
-        for b, i, s2 in g.stmts():
-            if s2["k"] == "assign" and s2["place"]["proj"] and s2["place"]["local"] <= g.arg_count:
-                for pl in mir.rv_places(s2["rv"]):
-                    if pl["local"] in child_locals:
-                        ctx.report("C03-fresh-frame", "stored", "the fresh frame is stored into a parameter", where_of(g, span=s2["span"]))
+    from . import evaltables
+    d_fresh = evaltables.rule_application(ctx, "C03-fresh-frame", {"frame", "bind"})
+    evaltables.rule_trampoline(ctx, "C03-fresh-frame", {"frame"})       # self tail calls: each turn has its own frame
+    evaltables.rule_assignment(ctx, "C03-set-in-place")
+    def _old_fresh():
+        asp = fb.find(INTERP + "apply_scheme_procedure")
+        pa = Prov(asp)
+        from . import frames
+        fr = frames.analyse(fb)
+        ctx.inst("C03-fresh-frame", "frame-provenance", {"case": fr.case, "created_in": sorted(fr.makers),
+                                                         "detail": [list(x) for x in fr.instances]})
+        ctx.oblige(not fr.problems)
+        for key, msg, where in fr.problems:
+            ctx.report("C03-fresh-frame", key, msg, where)
+        dom = asp.dominators()
+        if fr.case == "A" and len(fr.creation) == 1:
+            nb = fr.creation[0][1]
+            for b, t in asp.calls():
+                if callee_matches(t, "LexicalScope::define", "iter_to_last") and nb not in dom[b]:
+                    ctx.report("C03-fresh-frame", "order", "a binding is made before the fresh frame exists", where_of(asp, t))
+        # the fresh frame is not retained anywhere else: in every function that holds it between creation and the body
+        for g, nb, nt in fr.creation:
+            pg = Prov(g)
+            child_locals = {l for l in range(len(g.locals)) if ("call", nb, callee(nt)) in pg.roots(l)}
+            sinks = set()
+            for b, t in g.calls():
+                for k, a in enumerate(t["args"]):
+                    if mir.op_local(a) in child_locals:
+                        sinks.add(callee(t))
+            allowed = ("std::rc::Rc::new", "<std::rc::Rc as std::ops::Deref>::deref", "environment::LexicalScope::define",
+                       INTERP + "eval_expression", INTERP + "eval_tail_expression", "<std::rc::Rc as std::clone::Clone>::clone",
+                       INTERP + "apply_scheme_procedure", INTERP + "eval_procedure_call", "std::mem::drop",
+                       # the formals visitor (a closure capturing &frame; its body is checked by C01-scope-extend)
+                       "parser::parser::<impl error::Located<parser::parser::ParameterFormalsBody>>::iter_to_last")
+            extra = sorted(s for s in sinks if s not in allowed)
+            ctx.inst("C03-fresh-frame", "%s/child-frame-sinks" % g.name.rsplit("::", 1)[-1], sorted(s.rsplit("::", 1)[-1] for s in sinks if s))
+            if extra:
+                ctx.report("C03-fresh-frame", "escapes", "the fresh frame is handed to %s" % extra, where_of(g))
+            for b, i, s2 in g.stmts():
+                if s2["k"] == "assign" and s2["place"]["proj"] and s2["place"]["local"] <= g.arg_count:
+                    for pl in mir.rv_places(s2["rv"]):
+                        if pl["local"] in child_locals:
+                            ctx.report("C03-fresh-frame", "stored", "the fresh frame is stored into a parameter", where_of(g, span=s2["span"]))
+    ctx.guarded('C03-fresh-frame', d_fresh >= 8, _old_fresh)
+
     # frames are created only here and for library/root environments
     # (value environments only: syntax scopes `LexicalScope<Transformer>` are the parser's business)
     makers = sorted({g.name.split("::{closure")[0] for g in fb.all("lib") for b, t in g.calls()
                      if callee_matches(t, "environment::LexicalScope::new_child")
                      and "Transformer" not in " ".join((t.get("fn") or {}).get("generics", []) + t.get("argtys", []))})
-    ctx.inst("C03-fresh-frame", "new_child-callers", makers)
-    allowed_makers = set(fr.makers) or {asp.name}
-    for m in makers:
-        if m not in allowed_makers:
-            ctx.report("C03-fresh-frame", "maker/" + m, "%s creates child frames" % m, None)
+    ctx.inst("C03-fresh-frame", "new_child-callers", makers, nontrivial=False)      # informational census
 
     # ------------------------------------------------------------------ C03-vector-type
     ctx.rule("C03-vector-type", "vectors have identity: storage is Rc-shared and never copied on evaluator paths")
@@ -179,8 +196,4 @@ def run(ctx):
         ctx.report("C03-literal-immutable", "as_mut/error-kind", "as_mut does not build RequiresMutable", where_of(am))
     ctx.floor("C03-literal-immutable", 6)
 
-    # ------------------------------------------------------------------ C03-witness (thorough)
-    if ctx.tier == "thorough":
-        from . import witness
-        witness.run(ctx, "C03")
     return EXPLANATION, NOT_DECIDED
